@@ -27,6 +27,68 @@ CLAIMED["C04"] = dict(
     technique="Coq proof: algebraic identities over Q lifted to lists (ring/field/lra) + vm_compute differential correspondence",
     ref="4/C04")
 
+
+LOOP_NOTE = (BASE_NOTE + "The step computation (controller.step: Newton method, step solvers, linear solvers) is an arbitrary "
+             "oracle of the loop model, so the theorems hold for every Newton variant / step solver / linear solver / "
+             "controller; the clock is an arbitrary (for some lemmas: non-decreasing) function. Float comparisons are "
+             "assumed NaN-free. ")
+LOOP_TECH = ("Coq proof: invariants by induction over arbitrary step-oracle traces of the loop model (Loop.v) + vm_compute "
+             "differential correspondence of the real Solver.solve driven by a scripted controller.step and a virtual clock")
+
+CLAIMED["C02"] = dict(
+    text="Theorems for every oracle trace, clock, limit and policy: each returned status is justified by the returned state "
+         "(IterationLimit <-> iterations = limit, iterations never exceed the limit however the solve ends, TimeLimit only "
+         "on a clock read at/after the deadline and the deadline stays passed for a monotone clock, Optimal / "
+         "LocallyInfeasible / Unbounded only if the corresponding test holds at the returned iterate), tests in the "
+         "documented order. Numeric content of the tests (locally_infeasible, is_feasible) is tied by the iterate "
+         "correspondence unit. Partial: float rounding of the residuals is not modelled.",
+    note=LOOP_NOTE, technique=LOOP_TECH, ref="4/C02")
+CLAIMED["C07"] = dict(
+    text="Theorems for every fault sequence (the oracle may fail at any set of positions): a failed or abandoned trial "
+         "leaves iterate, path, counters of accepted steps, penalty and policy state unchanged, is announced as "
+         "(current, current, not accepted), counts one iteration and doubles lambda; the returned iterate is the start or "
+         "the `next` of a step announced as accepted; the run ends with a status or the deliberate lambda error (no "
+         "internal assertion of a penalty policy is reachable); Optimal still implies total_res <= opt_tol. Partial: "
+         "which real exception reaches compute_step's handlers is checked by fault-injection correspondence, not proved.",
+    note=LOOP_NOTE, technique=LOOP_TECH, ref="4/C07")
+CLAIMED["C08"] = dict(
+    text="Theorems: for EVERY budget k, limiting the run to k iterations returns exactly the state the unlimited run has at "
+         "the top of the loop with counter k (iterate, counters, announced steps, trials, path, model times, lambda, rho), "
+         "status IterationLimit; every k up to the natural length is such a point; histories only grow (prefix). Deadline "
+         "at a top-of-loop read returns the state as is; a deadline inside a trial abandons it without any trace in "
+         "iterate/path/counters and (monotone clock) the next test stops the solve. The corner 2*lambda >= lamb_max is "
+         "refuted by a computed witness (known finding F10).",
+    note=LOOP_NOTE, technique=LOOP_TECH, ref="4/C08")
+CLAIMED["C09"] = dict(
+    text="Theorem (lock-step simulation): two solves differing only in display interval and path collection, under two "
+         "arbitrary clocks (any wall-clock pattern of displayed rows), with a display-independent step computation, end "
+         "with the same status/error, iterate, lambda, penalty, counters, announced steps and per-trial data. Partial: "
+         "that the real step computation and display code are display-independent and cannot raise is checked by twin-run "
+         "correspondence (log levels, intervals, callbacks, collect_path, report_rcond), not proved.",
+    note=LOOP_NOTE, technique=LOOP_TECH, ref="4/C09")
+CLAIMED["C12"] = dict(
+    text="Theorems for every oracle trace (incl. penalty vetoes and failures): iterations = #announced = #trials; accepted "
+         "steps = #adopted trials; announced steps form a chain from the transformed start and the iterate moves only to "
+         "the `next` of a step announced accepted; final iterate = end of the chain; path = start + adopted points in "
+         "order; model times = partial sums of the dt handed to the adopted trials; accumulated step norms >= direct "
+         "distance for any distance obeying the triangle inequality (dist_factor >= 1 in exact arithmetic).",
+    note=LOOP_NOTE + "dist_factor: the float quotient is clamped by the fix: commit; the theorem is over Q for abstract norms.",
+    technique=LOOP_TECH, ref="4/C12")
+CLAIMED["C15"] = dict(
+    text="Theorems for every oracle trace: the first trial uses dt = 1/lamb_init and each later one dt = 1/(lambda returned "
+         "by the previous trial); every trial followed by another returned lambda < lamb_max, otherwise the solve ends "
+         "with the dedicated error with iterate/path/counters untouched; a trial not finally adopted keeps the iterate; "
+         "a failed trial returns 2*lambda > lambda. Controller-level facts (exact controller accepts only below "
+         "newton_tol etc.) are tied by the stepctl correspondence unit.",
+    note=LOOP_NOTE, technique=LOOP_TECH, ref="4/C15")
+CLAIMED["C16"] = dict(
+    text="Theorems: every policy only raises its own penalty and announces exactly it; constant policy never changes; "
+         "dual-norm: <= 10x per update and <= max(rho, ||y||_inf); internal assertions of penalty.py unreachable for "
+         "rho > 0; loop level for every oracle trace: penalties handed to successive trials are positive and "
+         "non-decreasing, solver rho <= policy rho, constant policy keeps params.rho.",
+    note=LOOP_NOTE + "Precondition params.rho > 0. ParetoDecrease's bound (norms, divisions) enters the model as data.",
+    technique=LOOP_TECH, ref="4/C16")
+
 PENDING = {}
 
 NOT_APPLICABLE = {
